@@ -458,6 +458,7 @@ func runRows(cfg rowsCfg, ch func(int, []int) int, grace time.Duration) *scenOut
 	}
 	if n := c.Count(); n != wantCount {
 		out.viol("C02", "Count is %d after the run, the committed transactions' inserts and deletes give %d (started at %d)", n, wantCount, count0)
+		out.viol("C11", "once all transactions have finished Count is %d, the committed inserts and deletes leave %d live rows (started at %d)", n, wantCount, count0)
 	}
 	if cfg.marker {
 		sel := false
@@ -477,6 +478,7 @@ func runRows(cfg rowsCfg, ch func(int, []int) int, grace time.Duration) *scenOut
 		}
 		if markGone && sel && !reused {
 			out.viol("C02", "row %d was deleted by a committed transaction but is still selected (has values: %v)", markRow, has)
+			out.viol("C11", "the offset %d of a row deleted by a committed transaction did not become free: it is still selected (has values: %v)", markRow, has)
 		}
 		if !markGone && !sel {
 			out.viol("C02", "row %d is gone although no committed transaction deleted it", markRow)
